@@ -131,8 +131,9 @@ fn rewrite(m: &MMappings, tr: &dyn Fn(&S) -> S, dtr: &dyn Fn(&S) -> S) -> Expect
 	let mut keys: HashSet<S> = HashSet::new();
 	for c in &m.classes {
 		let Some(Some(src)) = c.names.first() else { return Expect::Err };
-		let Some(Some(dst)) = c.names.get(1) else { return Expect::Panic };
-		let mut nc = MClass { names: vec![Some(tr(src)), Some(dtr(dst))], doc: c.doc.clone(), fields: vec![], methods: vec![] };
+		// a class without target name keeps having none
+		let dst = c.names.get(1).cloned().flatten();
+		let mut nc = MClass { names: vec![Some(tr(src)), dst.as_ref().map(|d| dtr(d))], doc: c.doc.clone(), fields: vec![], methods: vec![] };
 		let mut fk: HashSet<(S, S)> = HashSet::new();
 		for f in &c.fields {
 			let Some(d) = ref_desc(tr, &f.desc) else { return Expect::Err };
@@ -215,9 +216,12 @@ pub fn ref_read(text: &S) -> Result<MTable, ()> {
 	let mut out: MTable = vec![];
 	if text.is_empty() { return Ok(out); }
 	let mut lines: Vec<&[u32]> = text.split(|&c| c == 10).collect();
-	if lines.last().map_or(false, |l| l.is_empty()) { lines.pop(); }
-	for l in lines {
-		let l = if l.last() == Some(&13) { &l[..l.len() - 1] } else { l };
+	// every segment but the last was terminated by LF (and loses a CR before it); the rest of the
+	// text after the last LF is a line only if it is not empty, and keeps a trailing CR
+	let unterminated = lines.pop().filter(|l| !l.is_empty());
+	let mut all: Vec<&[u32]> = lines.into_iter().map(|l| if l.last() == Some(&13) { &l[..l.len() - 1] } else { l }).collect();
+	if let Some(l) = unterminated { all.push(l); }
+	for l in all {
 		let f: Vec<&[u32]> = l.split(|&c| c == 9).collect();
 		if f.len() != 6 { return Err(()); }
 		if f[0].is_empty() || f[1].is_empty() || f[4].is_empty() { return Err(()); }
